@@ -250,7 +250,7 @@ package core
 
 //@ func (*BeaconProcess).StartFollowChain(bp, ctx, req, stream) (err)
 //@   props C10
-//@   requires bp.log != nil && bp.opts != nil && bp.priv != nil && bp.priv.Public != nil
+//@   requires [C10] bp.log != nil && bp.opts != nil && bp.priv != nil && bp.priv.Public != nil
 //@   call createDBStore#0: assert [C10:nothing-is-stored-before-the-peer-info-matched-the-pinned-chain-hash] bytesEq(chain.infoHashOf(info), hash) && info != nil
 //@   call NewSyncManager#0: assert [C10:the-syncer-verifies-against-the-pinned-info] arg1 != nil && arg1.Info == info && bytesEq(chain.infoHashOf(info), hash)
 
@@ -264,3 +264,23 @@ package core
 //@   props C11
 //@   requires [C11] bp.log != nil && req != nil
 //@   call SyncChain#0: assert [C11:public-stream-uses-this-chains-store-the-request-and-the-clients-stream] typeis(arg2, "*proxyRequest") && as(arg2, "*proxyRequest").PublicRandRequest == req && typeis(arg3, "*proxyStream") && as(arg3, "*proxyStream").Public_PublicRandStreamServer == stream && typeis(arg1, "*github.com/drand/drand/v2/internal/chain/beacon.chainStore") && as(arg1, "*github.com/drand/drand/v2/internal/chain/beacon.chainStore") == bp.beacon.chain
+
+// ---- C19: the control endpoints that name a chain hand the request to exactly the process its metadata names ---------------
+//@ func (*DrandDaemon).Status(dd, ctx, in)
+//@   props C19
+//@   call Status#0: assert [C19:Status-served-by-named-chain] servedBy(dd, old(mdHash(reqMd(in))), old(mdID(reqMd(in))), arg0)
+//@ func (*DrandDaemon).PublicKey(dd, ctx, in)
+//@   props C19
+//@   call PublicKey#0: assert [C19:PublicKey-served-by-named-chain] servedBy(dd, old(mdHash(reqMd(in))), old(mdID(reqMd(in))), arg0)
+//@ func (*DrandDaemon).GroupFile(dd, ctx, in)
+//@   props C19
+//@   call GroupFile#0: assert [C19:GroupFile-served-by-named-chain] servedBy(dd, old(mdHash(reqMd(in))), old(mdID(reqMd(in))), arg0)
+//@ func (*DrandDaemon).BackupDatabase(dd, ctx, in)
+//@   props C19
+//@   call BackupDatabase#0: assert [C19:BackupDatabase-served-by-named-chain] servedBy(dd, old(mdHash(reqMd(in))), old(mdID(reqMd(in))), arg0)
+//@ func (*DrandDaemon).StartFollowChain(dd, in, stream)
+//@   props C19
+//@   call StartFollowChain#0: assert [C19:StartFollowChain-served-by-named-chain] servedBy(dd, old(mdHash(reqMd(in))), old(mdID(reqMd(in))), arg0)
+//@ func (*DrandDaemon).StartCheckChain(dd, in, stream)
+//@   props C19
+//@   call StartCheckChain#0: assert [C19:StartCheckChain-served-by-named-chain] servedBy(dd, old(mdHash(reqMd(in))), old(mdID(reqMd(in))), arg0)
